@@ -2,6 +2,7 @@
    This is what the OCaml driver calls; each command evaluates model functions on a case that the
    Python harness also runs on the rebuilt implementation. *)
 From OptreeModel Require Export Wire Flatten Unflatten Spec Ops Registry Pickle Accessor.
+From OptreeModel Require Ravel.
 
 Definition bad : sexp := SL [SI 2].   (* undecodable input: a harness error, never a verdict *)
 
@@ -213,6 +214,26 @@ Definition cmd_access (c : cfg) (o : obj) : sexp :=
         enc_objs ls]
   end.
 
+(* cmd 11: ravel / unravel bookkeeping on a chain of dtypes (promotion = max, casts = identity on
+   the small integers the harness uses) *)
+Definition dec_arr (s : sexp) : option Ravel.arr :=
+  match s with
+  | SL [SL sh; SI d; SL da] =>
+    obind (omapM dec_nat sh) (fun sh' => obind (omapM dec_Z da) (fun da' =>
+      Some {| Ravel.shape := sh'; Ravel.dtype := d; Ravel.data := da' |}))
+  | _ => None
+  end.
+Definition enc_arr (a : Ravel.arr) : sexp :=
+  SL [SL (map enc_nat (Ravel.shape a)); SI (Ravel.dtype a); SL (map SI (Ravel.data a))].
+Definition chain_promote (ds : list Z) : Z := fold_right Z.max 0 ds.
+Definition cmd_ravel (leaves : list Ravel.arr) (v : list Z) (vd : Z) : sexp :=
+  let '(flat, d) := Ravel.ravel_leaves chain_promote (fun _ _ x => x) leaves in
+  SL [SL (map SI flat); SI d;
+      match Ravel.unravel chain_promote (fun _ _ x => x) leaves flat d with
+      | Ravel.ROk l => SL (SI 0 :: map enc_arr l) | Ravel.RValueError => SL [SI 1] end;
+      match Ravel.unravel chain_promote (fun _ _ x => x) leaves v vd with
+      | Ravel.ROk l => SL (SI 0 :: map enc_arr l) | Ravel.RValueError => SL [SI 1] end].
+
 Definition run (s : sexp) : sexp :=
   match s with
   | SL [SI 1; c; o] =>
@@ -263,6 +284,11 @@ Definition run (s : sexp) : sexp :=
   | SL [SI 10; c; o] =>
     match dec_cfg c, dec_obj o with
     | Some c', Some o' => cmd_access c' o'
+    | _, _ => bad
+    end
+  | SL [SI 11; SL leaves; SL v; SI vd] =>
+    match omapM dec_arr leaves, omapM dec_Z v with
+    | Some l, Some v' => cmd_ravel l v' vd
     | _, _ => bad
     end
   | _ => bad
